@@ -19,6 +19,8 @@ read into `buf[0:start)`), `ScanLines` (:247-254), the `advance > 0 || token != 
 The file is a byte list; `ReadAt(p, off)` returns `len(p)` bytes, or fails with io.EOF if the file is shorter.
 `defaultBufSize` (4096) and `maxTokenSize` (65536) are parameters.
 -/
+
+set_option autoImplicit false
 namespace ShpanVerif.Model.FileScan
 
 abbrev Bytes := List UInt8
